@@ -168,6 +168,7 @@ class NetState:
         self.nwk_fc = 0
         self.aps_fc = 0
         self.key_table = {}  # index -> dict(eui64, key, out_fc, in_fc)
+        self.refuse_partners = {}  # partner EUI64 -> status kind: link keys for these are refused
         self.children = {}  # index -> dict(eui64, nwk, type)
         self.address_table = {}  # index -> (nwk, eui64)
         self.policies = {}
@@ -391,6 +392,9 @@ def install_network(ncp, net: NetState | None = None, store: ConfigStore | None 
 
     def add_kt_entry(n, a):
         addr = bytes(a["address"].serialize())
+        if addr in net.refuse_partners:
+            net.log.append(("link_key_refused", addr))
+            return [S("addOrUpdateKeyTableEntry", net.refuse_partners[addr])]
         idx = next((i for i, e_ in net.key_table.items() if e_["eui64"] == addr), None)
         if idx is None:
             idx = next((i for i in range(kt_size()) if i not in net.key_table), None)
@@ -403,6 +407,9 @@ def install_network(ncp, net: NetState | None = None, store: ConfigStore | None 
         i = int(a["index"])
         if i >= kt_size():
             return [S("importLinkKey", "invalid_index")]
+        if bytes(a["address"].serialize()) in net.refuse_partners:
+            net.log.append(("link_key_refused", bytes(a["address"].serialize())))
+            return [S("importLinkKey", net.refuse_partners[bytes(a["address"].serialize())])]
         net.key_table[i] = dict(eui64=bytes(a["address"].serialize()), key=bytes(a["key"].serialize()), out_fc=0, in_fc=0)
         return [S("importLinkKey", "ok")]
 
